@@ -95,7 +95,8 @@ def obligations(tier):
                               bounds='%d records (first %s, others any of %s), symbolic residue digit / insertion code / chain per record; '
                                      'selection one of %r' % (K, first, KINDS, SELS),
                               claim_doc='records, terminal tags and conformation names with chains=S == no option on the file without the other chains\' ATOM/HETATM records',
-                              max_paths=400000, wall_s=170 if tier == 'quick' else 1500, shards=3 if tier == 'quick' else 8))
+                              max_paths=400000, wall_s=170 if tier == 'quick' else 1500, shards=3 if tier == 'quick' else 2,
+                              split_input=None if tier == 'quick' else ('kind1', len(KINDS))))
     obs.append(Obligation('O2-option-plumbing', o_plumbing, code=['propka/lib.py:build_parser', 'propka/lib.py:loadOptions', I + 'read_pdb'],
                           bounds='8 command lines (upper- and lower-case letters, digits, blank)', kind='table-check'))
     obs.append(Obligation('O3-pipeline-selection', o_pipeline_selection, code=['propka/run.py:single (whole pipeline)', 'propka/molecular_container.py:MolecularContainer.__init__', I + 'read_pdb', I + 'get_atom_lines_from_pdb'],
